@@ -658,7 +658,7 @@ impl DpOracle for C14Oracle {
             }
             self.runs.clear();
             self.callbacks_since_cycle = 0;
-        } else {
+        } else if !v.poll_driven {
             let n = self.added.iter().filter(|a| **a).count() as u64;
             let bound = n * (u64::from(v.cfg.max_retry) + 3) * 2 + 8;
             if self.callbacks_since_cycle > bound {
